@@ -179,8 +179,10 @@ fn collect_metrics(repo: &Path, cfg: &AnalyzeConfig) -> io::Result<RepositoryMet
     let (mut reader, mut child) =
         run_git_capture_stream(repo, &["rev-list", "--objects", "--all"])?;
 
-    let mut line_buf = String::new();
-    while reader.read_line(&mut line_buf)? > 0 {
+    // Paths are arbitrary bytes; read raw lines and convert lossily instead of failing on non-UTF-8 names
+    let mut raw_line = Vec::new();
+    while reader.read_until(b'\n', &mut raw_line)? > 0 {
+        let line_buf = String::from_utf8_lossy(&raw_line);
         let line = line_buf.trim_end();
         let mut parts = line.splitn(2, ' ');
         if let (Some(oid), Some(path)) = (parts.next(), parts.next()) {
@@ -188,7 +190,7 @@ fn collect_metrics(repo: &Path, cfg: &AnalyzeConfig) -> io::Result<RepositoryMet
                 blob_path_map.insert(oid.to_string(), path.to_string());
             }
         }
-        line_buf.clear();
+        raw_line.clear();
     }
 
     // Wait for git command to complete
